@@ -1,7 +1,7 @@
 """C09 Recon text is a faithful and stable encoding, however it is chunked (structural clauses only)."""
 import re
 
-from mirlib import op_place, AnchorMissing, describe_call, describe_operand, describe_place, describe_rvalue, dom_guards, guards, switch_desc, _suffix_match
+from mirlib import op_place, op_place, AnchorMissing, describe_call, describe_operand, describe_place, describe_rvalue, dom_guards, guards, switch_desc, _suffix_match
 from rules.common import cast_chain, panic_sites, where
 
 META = {
@@ -142,7 +142,14 @@ def run(ctx):
         ii = ctx.saw(md.fn(suffix="identifier::is_identifier"))
         st = [c for c in ii.calls if c.defpath == START]
         rest = [c for c in ii.calls if c.name == "all" and CHAR in fn_consts(ii)]
-        r.check(len(st) == 1 and "next(" in describe_operand(ii, st[0].args[0]) and len(rest) == 1, "is_identifier/same-grammar", where(ii), "is_identifier = is_identifier_start(first) && rest.all(is_identifier_char)")
+        first_ok = len(st) == 1 and "next(" in describe_operand(ii, st[0].args[0])
+        if not st:
+            # `chars.next().is_some_and(is_identifier_start)`: the predicate handed to an adapter of the first character
+            for c in ii.calls:
+                if any(a[0] == "k" and isinstance(a[1], dict) and (a[1].get("fn") or {}).get("def") == START for a in c.args) and c.args and "next(" in describe_operand(ii, c.args[0]) \
+                        and c.name in ("is_some_and", "map_or", "filter", "map", "and_then"):
+                    first_ok = True
+        r.check(first_ok and len(rest) == 1, "is_identifier/same-grammar", where(ii), "is_identifier = is_identifier_start(first) && rest.all(is_identifier_char)")
         excl = sorted(describe_operand(ii, c.args[1]).strip("'") for c in ii.calls if c.name == "eq" and describe_operand(ii, c.args[0]) == "name")
         bools = set()
         for b in rc.all_bodies():
@@ -346,10 +353,47 @@ def run(ctx):
         emis.sort(key=lambda c: sum(1 for y in emis if y is not c and et.dominates(y.block, c.block)))
         enc, ubranch, passthru = {}, [], []
         ub_calls = []
+
+        def keyed_constants(op, hops=6):
+            """`code` in `if let Some(code) = short_escape(c)`: the character constants a value is chosen from, each with the character (the arm of
+            the match on the current character) it is chosen for - [(character code, literal)]"""
+            out = []
+            work, seen_ = [op_place(op)], set()
+            while work and hops > 0:
+                hops -= 1
+                pl = work.pop()
+                if pl is None or pl[0] in seen_:
+                    continue
+                seen_.add(pl[0])
+                for df in et.defs.get(pl[0], ()):
+                    if df[0] != "assign":
+                        continue
+                    rv = df[3]
+                    ops = [rv[1]] if rv[0] == "use" else (list(rv[2]) if rv[0] == "agg" and rv[1].get("variant") == "Some" else [])
+                    for o in ops:
+                        if o[0] == "k":
+                            ks = [l for d, l, _ in dom_guards(et, df[1]) if d.endswith("<Some>.0") and l.isdigit()]
+                            v = lit(describe_operand(et, o))
+                            if ks and v is not None:
+                                out.append((int(ks[0]), v))
+                        elif op_place(o) is not None:
+                            work.append(op_place(o))
+            return out
+        keyless = []
         for c in emis:
             a = describe_operand(et, c.args[1])
             g = dom_guards(et, c.block)
             key = [l for d, l, _ in g if d.endswith("<Some>.0") and l.isdigit()]
+            kc = keyed_constants(c.args[1]) if not key and lit(a) is None and c.args[1][0] in ("c", "m") else []
+            if kc and len({k_ for k_, _ in kc}) >= 3:
+                # a table in a helper: what was written just before on the same edge (the backslash) belongs to every entry
+                prefix = [lit(describe_operand(et, y.args[1])) for y in keyless if dom_guards(et, y.block)[-1:] == g[-1:] and et.dominates(y.block, c.block) and lit(describe_operand(et, y.args[1])) is not None]
+                for k_, v_ in kc:
+                    enc.setdefault(k_, []).extend(prefix + [v_])
+                for y in list(passthru):
+                    if dom_guards(et, y.block)[-1:] == g[-1:] and et.dominates(y.block, c.block):
+                        passthru.remove(y)
+                continue
             if key:
                 enc.setdefault(int(key[0]), []).append(lit(a) if lit(a) is not None else a)
             elif any(d.startswith("Lt(") and l == "true" for d, l, _ in g):
@@ -357,6 +401,7 @@ def run(ctx):
                 ub_calls.append(c)
             else:
                 passthru.append(c)
+                keyless.append(c)
         table = {}
         for ch, seq in enc.items():
             txt = "".join(seq)
@@ -457,17 +502,20 @@ def run(ctx):
         r.check(len(cv) == 1 and not uw, "unescape/invalid-code-point-is-an-error", cv[0].loc() if cv else where(un), "char::try_from of the escaped code point is matched, not unwrapped (a surrogate escape is a parse error)",
                 "char::try_from(..).unwrap(): \\ud800 panics")
         # needs_escape <=> escape_text
-        ne = [b for b in md.all_bodies() if b.defpath.endswith("literal::needs_escape::{closure#0}")]
-        if len(ne) != 1:
-            raise AnchorMissing("needs_escape closure")
-        ne = ctx.saw(ne[0])
-        eqs, lts = set(), set()
-        for i, j, p, rv, line in ne.assigns():
-            if rv[0] == "bin":
-                d = describe_rvalue(ne, rv)
-                lit = d.split(", ", 1)[1][:-1]
-                ch = "\\" if lit == "'\\\\'" else lit.strip("'").encode().decode("unicode_escape")
-                (eqs if rv[1] == "Eq" else lts).add((rv[1], ch))
+        # the predicate handed to `any`: a closure of needs_escape, or a function passed by name - evaluated on every ASCII character, whatever its form
+        nb = ctx.saw(md.fn(suffix="literal::needs_escape"))
+        ne, argi = None, 2
+        cl_ne = [b for b in md.all_bodies() if b.defpath.endswith("literal::needs_escape::{closure#0}")]
+        if len(cl_ne) == 1:
+            ne = cl_ne[0]
+        else:
+            for c in nb.calls:
+                for a in c.args:
+                    if a[0] == "k" and isinstance(a[1], dict) and isinstance(a[1].get("fn"), dict) and a[1]["fn"].get("def") in md.by_def:
+                        ne, argi = md.body(a[1]["fn"]["def"]), 1
+        if ne is None:
+            raise AnchorMissing("needs_escape: the predicate over characters (closure or named function)")
+        ne = ctx.saw(ne)
         lt_et = set()
         for sb in range(et.n):
             if et.term(sb)["k"] == "switch" and not et.is_cleanup(sb):
@@ -475,10 +523,22 @@ def run(ctx):
                 if d.startswith("Lt("):
                     v = d.split(", ", 1)[1][:-1]
                     lt_et.add(chr(int(v)) if v.isdigit() else v.strip("'").encode().decode("unicode_escape"))
-        r.check({c for _, c in eqs} <= set(table) and {c for _, c in eqs} == {'"', "\\"}, "needs_escape/specials-are-escaped", where(ne), "needs_escape tests %s; escape_text escapes each of them" % sorted(c for _, c in eqs),
-                "needs_escape tests %s but escape_text handles %s" % (sorted(c for _, c in eqs), sorted(table)))
-        r.check({c for _, c in lts} == lt_et and len(lt_et) == 1, "needs_escape/control-bound-agrees", where(ne), "both use the bound c < %r for control characters" % sorted(lt_et),
-                "needs_escape bound %s, escape_text bound %s" % (sorted(c for _, c in lts), sorted(lt_et)))
+        flagged, undecided = set(), set()
+        for code in list(range(0, 128)) + [0x7f, 0x80, 0xe9, 0x3b1]:
+            res = ne.eval_const({argi: code})
+            if res == {True}:
+                flagged.add(chr(code))
+            elif res != {False}:
+                undecided.add(chr(code))
+        if undecided:
+            raise AnchorMissing("needs_escape: the predicate could not be evaluated for %s" % sorted(undecided)[:5])
+        specials = {c for c in flagged if ord(c) >= 0x20}
+        controls = {c for c in flagged if ord(c) < 0x20}
+        bound = max(lt_et) if lt_et else None
+        r.check(specials <= set(table) and specials == {'"', "\\"}, "needs_escape/specials-are-escaped", where(ne), "needs_escape answers true for %s; escape_text escapes each of them" % sorted(specials),
+                "needs_escape answers true for %s but escape_text handles %s" % (sorted(specials), sorted(table)))
+        r.check(len(lt_et) == 1 and controls == {chr(x) for x in range(0, ord(bound))}, "needs_escape/control-bound-agrees", where(ne), "both treat exactly the characters below %r as control characters" % bound,
+                "needs_escape flags the control characters %s.., escape_text uses the bound %s" % (sorted(controls)[:3], sorted(lt_et)))
         r.check(all(ord(ch) < 0x20 or ch in ('"', "\\") for ch in table), "escape_text/only-escapes-what-needs_escape-detects", where(et), "every specially escaped character is one needs_escape detects (< 0x20, quote, backslash)")
 
     with ctx.rule("C09.R3", "T7", "incremental decoding consumes exactly what the parser consumed and keeps a cut multi-byte character", floor=6) as r:
